@@ -19,3 +19,5 @@ import ImathVerif.Props.C11
 import ImathVerif.Props.C13
 import ImathVerif.Props.C16
 import ImathVerif.Props.C10
+import ImathVerif.Props.C09
+import ImathVerif.Props.C15
